@@ -80,10 +80,11 @@ def register(add):
     VBD = 'ep_st *r, *mpk; bn_st *z, *h; const uint8_t *id, *msg; size_t id_len; int msg_len;'
     VBC = 'cp_vbnn_ver(r, z, h, id, id_len, msg, msg_len, mpk)'
     VBN = ABS + ' ep_size_bin returns one of two ghost sizes in 1..33 (the point R / any other point), ep_write_bin is frame + count; memcpy and alloca are the cbmc models.'
-    if os.environ.get('C05X_ALL'):
+    if True:     # strict reading registered: its three failing clauses are a listed known finding (natively reproduced)
         add('cp_vbnn_ver', ['C05'], 'cp_vbnn_ver', sources=['src/cp/relic_cp_vbnn.c', 'src/bn/relic_bn_mem.c'], headers=H, decls=VBD, call=VBC, replace=VBR,
             defines=VAC, note=VBN, bound_note='id <= 8 bytes, message <= 8 bytes (hash input buffer copied by memcpy); the logic is loop-free', **dict(VB, route='bounded'))
-    add('cp_vbnn_ver.codeguards', ['C05'], 'cp_vbnn_ver', sources=['src/cp/relic_cp_vbnn.c', 'src/bn/relic_bn_mem.c'], headers=H, decls=VBD, call=VBC, replace=VBR,
-        defines=['C05X_WITHOUT_SIGVALID', 'C05X_WITHOUT_ZRANGE', 'C05X_WITHOUT_KEYVALID'] + VAC,
-        note=VBN + ' LEFT OUT (demanded by the property, absent from the code): R on the curve and not the identity; 0 <= z < n; the master public key on the curve and not the identity',
-        bound_note='id <= 8 bytes, message <= 8 bytes (hash input buffer copied by memcpy); the logic is loop-free', **dict(VB, route='bounded'))
+    if os.environ.get('C05X_ALL'):
+      add('cp_vbnn_ver.codeguards', ['C05'], 'cp_vbnn_ver', sources=['src/cp/relic_cp_vbnn.c', 'src/bn/relic_bn_mem.c'], headers=H, decls=VBD, call=VBC, replace=VBR,
+          defines=['C05X_WITHOUT_SIGVALID', 'C05X_WITHOUT_ZRANGE', 'C05X_WITHOUT_KEYVALID'] + VAC,
+          note=VBN + ' LEFT OUT (demanded by the property, absent from the code): R on the curve and not the identity; 0 <= z < n; the master public key on the curve and not the identity',
+          bound_note='id <= 8 bytes, message <= 8 bytes (hash input buffer copied by memcpy); the logic is loop-free', **dict(VB, route='bounded'))
